@@ -546,7 +546,7 @@ CLEAN_FIELDS = {
 }
 
 
-@custom("c08-init-clean", props=["C08"])
+@custom("c08-init-clean", props=["C08", "C12", "C13", "C19"])
 def init_clean(ctx):
     idx = Index(ctx["repo"])
     out = []
@@ -683,7 +683,7 @@ def _module_mutables(t):
     return out
 
 
-@custom("c08-module-state", props=["C08"])
+@custom("c08-module-state", props=["C08", "C14", "C09"])
 def module_state(ctx):
     """C08: a lint run is a function of (files, config): functions reachable from the lint entry points keep no state
     across calls outside the rule objects -- no module-level variables written, no module-level containers mutated, no
@@ -729,6 +729,44 @@ def module_state(ctx):
             out.append(dict(name=f"custom:c08-module-state/{rel}::{qual}", kind="frame", verdict="refuted", carries=True,
                             witness_confirmed=False, solver="ast-scan",
                             note=f"reachable from the lint entry points and writes module-level state {sorted(written)}"))
+    # mutable CLASS-level attributes that methods mutate through self / cls: one object shared by every instance (and by
+    # every later generation of instances) -- per-run state that outlives the object it seems to belong to
+    for ck, cd in sorted(idx.classes.items()):
+        shared = {}
+        for st in cd.body:
+            tg = st.targets if isinstance(st, ast.Assign) else ([st.target] if isinstance(st, ast.AnnAssign) and st.value is not None else [])
+            v = getattr(st, "value", None)
+            if tg and v is not None and (isinstance(v, (ast.List, ast.Dict, ast.Set, ast.ListComp, ast.DictComp, ast.SetComp)) or (
+                    isinstance(v, ast.Call) and ast.unparse(v.func).split(".")[-1] in ("dict", "list", "set", "defaultdict", "OrderedDict", "deque"))):
+                for x in tg:
+                    if isinstance(x, ast.Name):
+                        shared[x.id] = st.lineno
+        if not shared or _is_dataclass(cd):
+            continue
+        rebound, mutated = set(), {}
+        for fn in [f for f in cd.body if isinstance(f, (ast.FunctionDef, ast.AsyncFunctionDef))]:
+            for attrs, ln, how in _self_writes(fn):
+                if attrs[0] in shared:
+                    if len(attrs) == 1 and how == "assign" and fn.name == "__init__":
+                        rebound.add(attrs[0])  # instance attribute created in __init__ shadows the class attribute
+                    else:
+                        mutated.setdefault(attrs[0], []).append(f"{fn.name}:{ln} ({how})")
+            for n in ast.walk(fn):
+                if isinstance(n, (ast.Subscript, ast.Attribute)) and isinstance(getattr(n, "ctx", None), (ast.Store, ast.Del)):
+                    c = _chain(n)
+                    if c and c[0] in ("cls", ck[1]) and len(c) > 1 and c[1] in shared:
+                        mutated.setdefault(c[1], []).append(f"{fn.name}:{n.lineno} (assign via {c[0]})")
+                if isinstance(n, ast.Call) and isinstance(n.func, ast.Attribute) and n.func.attr in MUTATORS:
+                    c = _chain(n.func.value)
+                    if c and c[0] in ("cls", ck[1]) and len(c) > 1 and c[1] in shared:
+                        mutated.setdefault(c[1], []).append(f"{fn.name}:{n.lineno} ({n.func.attr}() via {c[0]})")
+        for a, sites in sorted(mutated.items()):
+            if a in rebound:
+                continue
+            out.append(dict(name=f"custom:c08-module-state/{ck[0]}::{ck[1]}.{a}@class-level", kind="frame", verdict="refuted", carries=True,
+                            witness_confirmed=False, solver="ast-scan",
+                            note=f"mutable class-level attribute (L{shared[a]}) mutated by {sites[:3]}: shared by all instances, "
+                                 f"state survives the object and leaks between projects / runs"))
     out.append(dict(name="custom:c08-module-state/scan", kind="frame", verdict="discharged", carries=False, solver="ast-scan", ms=0.0,
                     note=f"{len(reach)} functions reachable from the lint entry points scanned for `global` writes and "
                          f"mutation of module-level containers and memoising decorators (lru_cache / cache / cached_property ...); found: {len(out)}"))
